@@ -10,6 +10,8 @@ C01 — ordinary cell hash and depth are the TON representation hash and depth.
 -/
 import TonVerif.Proofs.OrdCell
 import TonVerif.Proofs.Binding
+import TonVerif.Proofs.SrcArith
+import TonVerif.Generated.CellArith
 
 namespace TonVerif.Properties.C01
 open TonVerif TonVerif.Model TonVerif.Proofs.OrdCell
@@ -87,5 +89,70 @@ theorem c01_hash_binding (H : Bytes → Bytes) (h32 : ∀ x, (H x).length = 32) 
 def sample : Cell := .mk (-1) [true, false, true, true, false] [.mk (-1) [] [], .mk (-1) [true] []]
 example : OrdWF sample ∧ ordDepth sample ≤ 1023 := by
   simp [sample, OrdWF, OrdWFs, ordDepth, ordDepthMax]
+
+/-! ## Source-regenerated arithmetic (`Generated/CellArith.lean` is re-translated from cell.py on every run)
+
+The definitions `Generated.refsDescriptor`, `bitsDescriptor`, `depthTooLarge` are the mechanical translation of
+`Cell.get_refs_descriptor`, `Cell.get_bits_descriptor` and of the depth test in `Cell.calculate_hashes`
+(harness/translate/pyarith.py).  Each theorem also proves the translator's side conditions (`*_sideOk`: no Nat
+subtraction underflows, no division by zero), so the Lean `Nat` reading equals the Python `int` one. -/
+section Src
+open TonVerif.Proofs.SrcArith
+set_option linter.unusedSimpArgs false
+
+/-- `get_refs_descriptor` computes d1 = r + 8·exotic + 32·mask (tvm.pdf 3.1.4), for ALL reference counts, flags and masks. -/
+theorem c01_src_d1 (r : Nat) (exotic : Bool) (mask : Nat) :
+    Generated.refsDescriptor_sideOk r exotic mask ∧ Generated.refsDescriptor r exotic mask = Spec.d1 r exotic mask := by
+  simp only [Generated.refsDescriptor_sideOk, Generated.refsDescriptor, Spec.d1] <;>
+    (cases exotic <;> src_arith)
+
+/-- `get_bits_descriptor` computes d2 = ⌊b/8⌋ + ⌈b/8⌉ (tvm.pdf 3.1.4), for ALL bit lengths. -/
+theorem c01_src_d2 (b : Nat) : Generated.bitsDescriptor_sideOk b ∧ Generated.bitsDescriptor b = Spec.d2 b := by
+  simp only [Generated.bitsDescriptor_sideOk, Generated.bitsDescriptor, Spec.d2]
+  src_arith
+
+/-- the hand model's `descriptors` (what every hash in C01/C02 is computed over) is exactly the two source
+computations, each written as ONE big-endian byte (`to_bytes(1, 'big')` — width and byte order are read from the source). -/
+theorem c01_src_descriptors (r : Nat) (exotic : Bool) (b mask : Nat) :
+    Generated.refsDescriptor_bigEndian = true ∧ Generated.bitsDescriptor_bigEndian = true ∧
+    descriptors r exotic b mask =
+      (do let d1 ← toBytesBE? Generated.refsDescriptor_width (Generated.refsDescriptor r exotic mask)
+          let d2 ← toBytesBE? Generated.bitsDescriptor_width (Generated.bitsDescriptor b)
+          pure (d1 ++ d2)) := by
+  refine ⟨rfl, rfl, ?_⟩
+  have h1 := (c01_src_d1 r exotic mask).2
+  have h2 := (c01_src_d2 b).2
+  have w1 : Generated.refsDescriptor_width = 1 := rfl
+  have w2 : Generated.bitsDescriptor_width = 1 := rfl
+  rw [h1, h2, w1, w2]
+  unfold descriptors Spec.d1 Spec.d2
+  have : (b / 8) * 2 + (if b % 8 != 0 then 1 else 0) = b / 8 + (b + 7) / 8 := by
+    by_cases h : b % 8 = 0 <;> simp [h] <;> omega
+  rw [this]
+
+/-- within the cell limits (≤ 4 refs, mask ≤ 7, ≤ 1023 bits) both descriptors fit their single byte, so
+`to_bytes` never raises. -/
+theorem c01_src_descriptors_fit (r : Nat) (exotic : Bool) (b mask : Nat) (hr : r ≤ 4) (hm : mask ≤ 7) (hb : b ≤ 1023) :
+    Generated.refsDescriptor r exotic mask < 256 ^ Generated.refsDescriptor_width ∧
+    Generated.bitsDescriptor b < 256 ^ Generated.bitsDescriptor_width := by
+  rw [(c01_src_d1 r exotic mask).2, (c01_src_d2 b).2]
+  simp only [Spec.d1, Spec.d2, show Generated.refsDescriptor_width = 1 from rfl, show Generated.bitsDescriptor_width = 1 from rfl] <;>
+    (cases exotic <;> src_arith)
+
+/-- the depth test of `calculate_hashes` refuses exactly depths above 1023 (`c01_constructible_iff`'s bound), and the
+hand model's test `depth0 + 1 >= 1024` is that test. -/
+theorem c01_src_depth_limit (depth : Nat) :
+    Generated.depthTooLarge_sideOk depth ∧ (Generated.depthTooLarge depth = false ↔ depth ≤ 1023) ∧
+    Generated.depthTooLarge depth = decide (depth >= 1024) := by
+  refine ⟨by simp only [Generated.depthTooLarge_sideOk]; src_arith, ?_, ?_⟩
+  · simp only [Generated.depthTooLarge, decide_eq_false_iff_not] <;> omega
+  · simp only [Generated.depthTooLarge, decide_eq_decide] <;> omega
+
+/-- concrete values of the regenerated definitions (non-vacuity of the ranges in `c01_src_descriptors_fit`; 1023 bits,
+4 refs, mask 7 are the largest admissible inputs). -/
+example : Generated.bitsDescriptor 1023 = 255 ∧ Generated.bitsDescriptor 8 = 2 ∧ Generated.refsDescriptor 4 true 7 = 236 ∧
+    Generated.depthTooLarge 1023 = false ∧ Generated.depthTooLarge 1024 = true := by decide
+
+end Src
 
 end TonVerif.Properties.C01
